@@ -186,6 +186,16 @@ def load_check(pid):
     return mod
 
 
+def _disarm():
+    """cancel the case alarm; a repeat alarm may land at any bytecode, also here"""
+    while True:
+        try:
+            signal.setitimer(signal.ITIMER_REAL, 0)
+            return
+        except CaseTimeout:
+            continue
+
+
 def run_one(mod, tier, seed=None, values=None):
     """run one case; exceptions escaping the harness are HarnessError"""
     tape = Tape(seed=seed, values=values)
@@ -193,10 +203,31 @@ def run_one(mod, tier, seed=None, values=None):
     sys.stderr = _DEVNULL    # hio writes parse errors to sys.stderr; never part of any digest
     limit = float(getattr(mod, "CASE_TIMEOUT", CASE_TIMEOUT))
     old_handler = signal.signal(signal.SIGALRM, _on_alarm)
-    signal.setitimer(signal.ITIMER_REAL, limit, 5.0)     # repeats: cleanup after the first alarm may hang as well
+    res = None
+    timed_out = False
+    escaped = None
+    harness_exc = None
+    # the alarm repeats every 5 s after the first one: the cleanup that the first CaseTimeout runs through (finally blocks of
+    # the code under test) may hang as well.  Everything that has to happen after a timeout happens once the alarm is disarmed.
+    signal.setitimer(signal.ITIMER_REAL, limit, 5.0)
     try:
-        res = mod.run_case(tape, tier)
-    except CaseTimeout:
+        try:
+            res = mod.run_case(tape, tier)
+        except CaseTimeout:
+            timed_out = True
+        except HarnessError as ex:
+            harness_exc = ex
+        except Exception as ex:
+            escaped = (ex, traceback.format_exc())
+        except BaseException as ex:  # a bug in the harness, never a violation
+            harness_exc = HarnessError("harness exception in %s: %s\n%s" % (mod.PID, repr(ex), traceback.format_exc()))
+    except CaseTimeout:      # a repeat alarm that landed inside one of the handlers above
+        timed_out = True
+    finally:
+        _disarm()
+        signal.signal(signal.SIGALRM, old_handler)
+        sys.stderr = saved_err
+    if timed_out:
         # the code under test (or a loop it drives) did not terminate: on the unchanged tree every case
         # takes milliseconds, so this is reported as a violation of the property the case exercises
         res = Result()
@@ -204,19 +235,20 @@ def run_one(mod, tier, seed=None, values=None):
         res.scen_digest = digest(tape.recorded())
         res.event_digest = "timeout"
         res.scenario = dict(note="timed out", draws=len(tape.log))
-    except HarnessError:
-        raise
-    except Exception as ex:
+    elif harness_exc is not None:
+        raise harness_exc
+    elif escaped is not None:
         # An exception that travelled through a frame of the tree under test escaped from hio into the harness: hio
         # either raised it or let a (simulated) system error through.  No case on the unchanged tree does that, every
         # check calls hio only in ways its documentation allows, so this is reported as a violation of the property the
         # case exercises (it replays like any other).  An exception that never touched the tree is a harness bug.
+        ex, formatted = escaped
         from . import tree as _tree
         src = os.path.realpath(_tree.SRC) + os.sep
         frames = traceback.extract_tb(ex.__traceback__)
         inside = [f for f in frames if os.path.realpath(f.filename).startswith(src)]
         if not inside:
-            raise HarnessError("harness exception in %s: %s\n%s" % (mod.PID, repr(ex), traceback.format_exc())) from ex
+            raise HarnessError("harness exception in %s: %s\n%s" % (mod.PID, repr(ex), formatted)) from ex
         f = inside[-1]
         res = Result()
         res.violate("code-under-test-raised", "%s: %s escaped from hio (%s:%d in %s) into the harness call %s" % (
@@ -225,13 +257,6 @@ def run_one(mod, tier, seed=None, values=None):
         res.scen_digest = digest(tape.recorded())
         res.event_digest = "raised"
         res.scenario = dict(note="exception escaped from the code under test", exception=repr(ex)[:300], draws=len(tape.log))
-    except BaseException as ex:  # a bug in the harness, never a violation
-        raise HarnessError("harness exception in %s: %s\n%s" % (
-            mod.PID, repr(ex), traceback.format_exc())) from ex
-    finally:
-        signal.setitimer(signal.ITIMER_REAL, 0)
-        signal.signal(signal.SIGALRM, old_handler)
-        sys.stderr = saved_err
     return tape, res
 
 
